@@ -42,6 +42,9 @@ func Litmus(ctx *engine.Ctx) {
 	a, b = enc(conclitmus.EncodeAlias, 0x01020304), enc(conclitmus.EncodeAlias, 0xA1A2A3A4)
 	r = vs.Concurrent2(2, a, b, a(), b(), maxExecPerPair)
 	ctx.Guard(r.Bad && r.Accesses > 0, "concurrency litmus: the shared scratch buffer reached through a local alias (conclitmus.EncodeAlias) was not detected (executions %d, access points %d)", r.Executions, r.Accesses)
+	a, b = enc(conclitmus.EncodeReturned, 0x01020304), enc(conclitmus.EncodeReturned, 0xA1A2A3A4)
+	r = vs.Concurrent2(2, a, b, a(), b(), maxExecPerPair)
+	ctx.Guard(r.Bad && r.Accesses > 0, "concurrency litmus: the shared buffer handed back by a helper and read after its lock is released (conclitmus.EncodeReturned) was not detected (executions %d, access points %d)", r.Executions, r.Accesses)
 	a, b = enc(conclitmus.EncodeLocal, 0x01020304), enc(conclitmus.EncodeLocal, 0xA1A2A3A4)
 	r = vs.Concurrent2(2, a, b, a(), b(), maxExecPerPair)
 	ctx.Guard(!r.Bad && r.HardError == "", "concurrency litmus: the correct variant was reported: %s %s", r.What, r.HardError)
